@@ -402,6 +402,9 @@ def fresh_like(ctx, v, name):
     raise Unsupported('cannot havoc %s of sort %s; give the loop contract a havoc entry' % (name, type(v).__name__))
 
 
+SHADOW_OK = set()  # names a contract module may whitelist when the module-level definition IS the builtin (e.g. re-exported)
+
+
 class Interp:
     def __init__(self, ctx, globals_, module=None, loops=None, exc_parents=None, fnname='', module_names=None, exact=False, unroll_while=0):
         self.ctx = ctx
@@ -953,6 +956,10 @@ class Interp:
         if name in self.globals:
             return self.globals[name]
         if name in ops.BUILTINS or name in ops.TYPE_OF_BUILTIN:
+            if name in self.module_names and name not in SHADOW_OK:
+                # the module under contract defines this name itself (evaluable.py has its own sum, abs, divmod, ...): Python resolves the
+                # module-level definition, not the builtin; the contract has to supply a model of it (silently using the builtin is unsound)
+                raise Unsupported('module-level name %r shadows the builtin and is not modelled by the contract' % name)
             return Builtin(name)
         if name in self.exc_parents:
             return ExcClass(name)
